@@ -237,6 +237,67 @@ theorem C04_filter_iff (obs : List (Nat × Obst × Option Nat)) (role : Option R
   · rintro ⟨o, oty, hmem, h1, h2⟩
     exact ⟨(i, o, oty), hmem, by simp [h1, h2]⟩
 
+/-- `obstacles_by_position_intervals`: an obstacle is listed iff its role is among the requested ones, it has an occupancy
+    at `t` when it is dynamic or phantom, and the centre it offers — if it offers one — lies in both closed intervals. -/
+theorem C04_position_iff (obs : List (Nat × Obst)) (ctr : Nat → Option (Rat × Rat)) (ix iy : CR.Iv.I)
+    (roles : List Role) (t : Int) (i : Nat) :
+    i ∈ byPosition obs ctr ix iy roles t ↔
+      ∃ o, (i, o) ∈ obs ∧ o.role ∈ roles ∧
+        ((o.role = .dynamic ∨ o.role = .phantom) → ∃ oc, occupancyAt o t = some oc) ∧
+        (∀ c, ctr i = some c → ix.lo ≤ c.1 ∧ c.1 ≤ ix.hi ∧ iy.lo ≤ c.2 ∧ c.2 ≤ iy.hi) := by
+  have hc : ∀ x, centreIn ix iy x = true ↔
+      (∀ c, x = some c → ix.lo ≤ c.1 ∧ c.1 ≤ ix.hi ∧ iy.lo ≤ c.2 ∧ c.2 ≤ iy.hi) := by
+    intro x
+    cases x with
+    | none => simp [centreIn]
+    | some c => simp [centreIn, CR.Iv.contains, and_assoc]
+  have pass : ∀ r : Role,
+      i ∈ posPass obs ctr ix iy roles t r ↔
+        ∃ o, (i, o) ∈ obs ∧ o.role = r ∧ r ∈ roles ∧
+          ((r = .dynamic ∨ r = .phantom) → ∃ oc, occupancyAt o t = some oc) ∧
+          (∀ c, ctr i = some c → ix.lo ≤ c.1 ∧ c.1 ≤ ix.hi ∧ iy.lo ≤ c.2 ∧ c.2 ≤ iy.hi) := by
+    intro r
+    unfold posPass
+    by_cases hr : r ∈ roles
+    · simp only [hr, if_true, List.mem_filterMap]
+      constructor
+      · rintro ⟨⟨j, o⟩, hmem, h⟩
+        simp only at h
+        split at h
+        · rename_i hcnd
+          cases h
+          exact ⟨o, hmem, hcnd.1, trivial, fun h' => Option.isSome_iff_exists.mp (hcnd.2.1 h'), (hc _).mp hcnd.2.2⟩
+        · cases h
+      · rintro ⟨o, hmem, hro, -, hocc, hctr⟩
+        refine ⟨(i, o), hmem, ?_⟩
+        have h1 : (r = .dynamic ∨ r = .phantom) → (occupancyAt o t).isSome = true :=
+          fun h' => Option.isSome_iff_exists.mpr (hocc h')
+        have h2 := (hc (ctr i)).mpr hctr
+        simp only
+        rw [if_pos ⟨hro, h1, h2⟩]
+    · simp [hr]
+  unfold byPosition
+  simp only [List.mem_append]
+  rw [pass .dynamic, pass .phantom, pass .static, pass .environment]
+  constructor
+  · rintro (((⟨o, hm, hr, hin, ho, hcc⟩ | ⟨o, hm, hr, hin, ho, hcc⟩) | ⟨o, hm, hr, hin, ho, hcc⟩) | ⟨o, hm, hr, hin, ho, hcc⟩)
+    all_goals refine ⟨o, hm, hr ▸ hin, ?_, hcc⟩
+    · intro _; exact ho (Or.inl rfl)
+    · intro _; exact ho (Or.inr rfl)
+    · intro h; rw [hr] at h; rcases h with h | h <;> cases h
+    · intro h; rw [hr] at h; rcases h with h | h <;> cases h
+  · rintro ⟨o, hm, hin, ho, hcc⟩
+    cases hrole : o.role with
+    | dynamic => exact Or.inl (Or.inl (Or.inl ⟨o, hm, hrole, hrole ▸ hin, fun _ => ho (Or.inl hrole), hcc⟩))
+    | phantom => exact Or.inl (Or.inl (Or.inr ⟨o, hm, hrole, hrole ▸ hin, fun _ => ho (Or.inr hrole), hcc⟩))
+    | static => exact Or.inl (Or.inr ⟨o, hm, hrole, hrole ▸ hin, (fun h => by rcases h with h | h <;> cases h), hcc⟩)
+    | environment => exact Or.inr ⟨o, hm, hrole, hrole ▸ hin, (fun h => by rcases h with h | h <;> cases h), hcc⟩
+
+/-- The listing order: all dynamic obstacles first, then phantom, static, environment (four loops in the code). -/
+example : byPosition [(1, .static 0), (2, .dynamic 0 .none), (3, .environment), (4, .phantom none), (5, .dynamic 3 .none)]
+    (fun i => if i = 1 then some (5, 5) else if i = 3 then none else some (0, 0)) ⟨-1, 1⟩ ⟨-1, 1⟩
+    [.static, .dynamic, .environment, .phantom] 0 = [2, 3] := by decide +kernel
+
 /-! ### the algebraic core of the enclosure for uncertain orientations
   `occupancy_shape_from_state` enlarges an l × w box to `l + l_ψ` with
   `l_ψ = |(1 - cos δ_l)·l - sin δ_l·w|`, `δ_l = min(Δψ, arctan(w/l))`. The rotated box's extent along
